@@ -216,20 +216,62 @@ func baseServerEffects(c *core.Ctx, R string) {
 			c.Need(R, "cookie."+cd.field+" default", n, 1)
 		}
 		for _, a := range assignsIn(u, func(l ast.Expr) bool { return strings.HasSuffix(selPath(l), "cookie.SameSite") }) {
-			okSS := g.GuardedBy(a.Loc, func(x *core.Unit, br core.Branch) int {
-				be, isB := ast.Unparen(br.Cond).(*ast.BinaryExpr)
-				if br.IsCase || !isB || !strings.HasSuffix(selPath(be.X), ".SameSite") || !strings.HasSuffix(selPath(be.Y), "SameSiteDefaultMode") {
-					return 0
+			// The licensing condition is evaluated over the finite domain of
+			// http.SameSite: it must hold for 0 (the value of a field that was
+			// not set — SameSiteDefaultMode is 1, fix ffdb8f0) and must not hold
+			// for an explicitly configured Lax / Strict / None.
+			var cond ast.Expr
+			ast.Inspect(u.Root().Body, func(n ast.Node) bool {
+				if is, isIf := n.(*ast.IfStmt); isIf && is.Body.Pos() <= a.Stmt.Pos() && a.Stmt.End() <= is.Body.End() {
+					cond = is.Cond // innermost wins: Inspect visits outer first
 				}
-				if be.Op == token.EQL {
-					return 1
-				}
-				if be.Op == token.NEQ {
-					return -1
-				}
-				return 0
+				return true
 			})
-			c.Check(R, "engine.(*baseServer).Construct/cookie.SameSite-default-only-where-unset", a.Stmt.Pos(), okSS, "SameSite is defaulted to Lax only when left at its zero value")
+			var eval func(e ast.Expr, v int64) (bool, bool)
+			eval = func(e ast.Expr, v int64) (bool, bool) {
+				switch x := ast.Unparen(e).(type) {
+				case *ast.BinaryExpr:
+					switch x.Op {
+					case token.LOR, token.LAND:
+						l, okL := eval(x.X, v)
+						r, okR := eval(x.Y, v)
+						if !okL || !okR {
+							return false, false
+						}
+						if x.Op == token.LOR {
+							return l || r, true
+						}
+						return l && r, true
+					case token.EQL, token.NEQ:
+						val, side := x.Y, x.X
+						if !strings.HasSuffix(selPath(side), ".SameSite") {
+							val, side = x.X, x.Y
+						}
+						if !strings.HasSuffix(selPath(side), ".SameSite") {
+							return false, false
+						}
+						k, okK := core.ConstInt(u.Info(), val)
+						if !okK {
+							return false, false
+						}
+						return (k == v) == (x.Op == token.EQL), true
+					}
+				}
+				return false, false
+			}
+			okSS := cond != nil
+			for v := int64(0); v <= 4 && okSS; v++ {
+				holds, known := eval(cond, v)
+				switch {
+				case !known:
+					okSS = false
+				case v == 0:
+					okSS = holds
+				case v >= 2:
+					okSS = !holds
+				}
+			}
+			c.Check(R, "engine.(*baseServer).Construct/cookie.SameSite-default-only-where-unset", a.Stmt.Pos(), okSS, "SameSite is defaulted to Lax when the field was left unset (value 0; SameSiteDefaultMode is 1) and never when Lax / Strict / None was configured")
 		}
 		requireEffects(c, R, u, []effect{{name: "SetCookie(cookie)", match: mName("SetCookie"), on: []core.Guard{gNilLocal("cookie", true)}}})
 		_ = info
